@@ -190,7 +190,7 @@ def _structural(V, name):
         except TypeError:
             x = xs
     from utype.utils.transform import type_transform
-    n_in = len(x) if isinstance(x, (list, tuple, collections.deque)) else None
+    n_in = len(x) if isinstance(x, (list, tuple)) else None      # (a deque is not one of the library's sequence kinds: it is converted as a scalar)
     r = call_checked(V, '%s %r' % (name, o), type_transform, x, T, Options(**o))
     if r[0] == 'ok' and n_in is not None and name in ('List[int]', 'Tuple[int,...]') and 'invalid_items' not in o:
         # without an exclude policy a sequence result has one element per input element: a failure can not vanish
